@@ -1,7 +1,7 @@
 import PGM.Proofs.Semantics
 import PGM.Proofs.BPRefine
 /-! correctness of `belief_propagation` on junction trees -/
-namespace PGM.Sem
+namespace PGM.Sem.BP
 open PGM PGM.JT PGM.GM
 variable {K : Type} [Field K] [LinearOrder K] [IsStrictOrderedRing K]
 set_option linter.unusedSectionVars false
@@ -225,4 +225,4 @@ theorem bp_marginals (d : Dom) (cliques : List Clique) (t : Tree) (order : List 
   rw [div_eq_mul_inv]
   ring
 
-end PGM.Sem
+end PGM.Sem.BP
